@@ -150,7 +150,9 @@ func factoryEntries(p *core.Program, fi *core.FuncInfo) ([]regEntry, string) {
 		if !ok || v.Pkg() == nil || v.Parent() != v.Pkg().Scope() {
 			return true
 		}
-		if _, isMap := v.Type().Underlying().(*types.Map); !isMap {
+		switch v.Type().Underlying().(type) {
+		case *types.Map, *types.Array, *types.Slice: // keyed by the code (map key, or index of a keyed array literal)
+		default:
 			return true
 		}
 		// the table's initialiser
